@@ -59,7 +59,10 @@ def gen(rng, k, tight=False):
         # min_weight = 0 (accept every peak): a peak of elevation exactly 0 is still "elevation >= min_weight"; it has no
         # weight in the fit but is matched and reported like any other
         min_weight, nweak = 0.0, 0
-        if np.linalg.matrix_rank(np.hstack([np.ones((len(idx) - 1, 1)), idx[1:]])) == 3:
+        # (the other inliers alone must pin the lattice down well: at least six of them, spread in both directions -- a lattice
+        # drawn through three or four noisy points does not predict a far position to within the tolerance)
+        rest = np.hstack([np.ones((len(idx) - 1, 1)), idx[1:]])
+        if len(idx) >= 7 and np.linalg.svd(rest, compute_uv=False).min() > 1.5:
             elev[0] = 0.0
     out_idx = []
     free = [g for g in grid if g not in {tuple(x) for x in idx.astype(int).tolist()}]
